@@ -160,6 +160,7 @@ fn sync_orders(rep: &Report) {
         ("status", None),
     ];
     let mut n = 0u64;
+    let mut overlapping = 0u64;
     let mut distinct = std::collections::BTreeSet::new();
     for r in [2usize, 3] {
         for old in &olds {
@@ -191,6 +192,21 @@ fn sync_orders(rep: &Report) {
                         crate::util::block_on(with_replica(&mut w.reps[other], Ctl::new(), async |rp| rp.commit_operations(vec![op]).await)).unwrap();
                         w.obs[other] = Arc::new(obs_of(&mut w.reps[other]));
                     }
+                    // the same situation with the syncs overlapping in time: every interleaving of the
+                    // server requests of all replicas syncing at once (once per situation)
+                    if order == perms(r)[0] {
+                        let sc = super::c02::Race { world: w.clone(), racers: (0..r).collect(), urg: Urg::None, snapshots_only: false, must_be_absent: vec![u], must_be_present: vec![uid(2)], expect_tasks: None };
+                        let cfg = crate::explore::sched::ExploreCfg { bound: if r >= 3 { 2 } else { usize::MAX }, max_schedules: 200_000, deadline: None, seen: Some(Default::default()) };
+                        let (st, fails) = crate::explore::sched::explore(&sc, &cfg);
+                        overlapping += st.schedules;
+                        for f in fails.into_iter().take(1) {
+                            rep.violation(Violation::new(
+                                format!("{}:overlapping-syncs", f.what.split(':').next().unwrap_or("")),
+                                format!("{} [replicas {r}, modified {old}, concurrent edit {p}={v:?}]", f.what),
+                                json!({"kind": "c20-sync", "replicas": r, "modified": old, "edit": [p, v], "schedule": super::c02::trace_to_json(&f.trace)}),
+                            ));
+                        }
+                    }
                     let mut res: Result<(), String> = Ok(());
                     for &i in &order {
                         let out = do_sync(&mut w, i, Urg::None, false, None, None);
@@ -220,6 +236,8 @@ fn sync_orders(rep: &Report) {
     }
     rep.add("evaluations", n);
     rep.add("sync_order_scenarios", n);
+    rep.add("overlapping_sync_schedules", overlapping);
+    rep.add("traces_validated_against_impl", overlapping);
     rep.add("distinct_nontrivial", distinct.len() as u64);
 }
 
